@@ -3,7 +3,6 @@ once."""
 from __future__ import annotations
 
 import logging
-import random
 
 from hypothesis import strategies as st
 
@@ -44,8 +43,8 @@ def check(case) -> Outcome:
     spec = sc.normalise(case['prog'])
     has_cancel = P.has_kind(spec, ('mapcancel', 'subcancel'))
     P.reset()
-    random.seed(case['rseed'])
-    sim = Sim(case['topo'], case['sched'], policy=case.get('policy'))
+    sim = Sim(case['topo'], case['sched'], policy=case.get('policy'),
+              rseed=case['rseed'])
     crossing = [0]
     oversize = [0]
     bound_fail = []
@@ -247,5 +246,5 @@ def cases(draw, quick=True):
 def run_shard(ctx: core.Ctx) -> core.ShardResult:
     res = core.ShardResult()
     core.run_hypothesis(ctx, res, cases(ctx.tier == 'quick'), check,
-                        ctx.n(250, 6000))
+                        ctx.n(200, 6000))
     return res
